@@ -1,6 +1,7 @@
 package prhp
 
 import (
+	"context"
 	"fmt"
 	"reflect"
 	"sync"
@@ -10,6 +11,7 @@ import (
 	"go.sia.tech/core/consensus"
 	proto4 "go.sia.tech/core/rhp/v4"
 	"go.sia.tech/core/types"
+	rhp4 "go.sia.tech/coreutils/rhp/v4"
 	"pgregory.net/rapid"
 
 	"verif/kit"
@@ -32,6 +34,7 @@ type C08Op struct {
 	Keys    []int  `json:"keys,omitempty"`   // replenish: account / pool indices
 	Alw     int    `json:"alw,omitempty"`    // renew / refresh: allowance code
 	Col     int    `json:"col,omitempty"`    // renew / refresh: collateral code
+	What    string `json:"what,omitempty"`   // settings: maxcol | maxdur | accept | prices
 	Old     bool   `json:"old,omitempty"`    // address contract C itself even if it has been renewed (do not follow the renewal)
 	Race    *C08Op `json:"race,omitempty"`   // race: the second RPC, run concurrently on the same contract
 }
@@ -834,7 +837,7 @@ func (x *c08) renewOn(op C08Op, m *mcontract) error {
 	case "allowance-zero":
 		args.Allowance, corrupted = types.ZeroCurrency, true
 	case "collateral-over-max":
-		args.Collateral, corrupted = x.H.Cfg.MaxCollateral.Add(types.Siacoins(1)), true
+		args.Collateral, corrupted = x.H.Settings.RHP4Settings().MaxCollateral.Add(types.Siacoins(1)), true
 		args.Allowance = args.Collateral // keep the allowance above the minimum so that only the cap decides
 	default:
 		if t, ok := x.tamperFor(op.Op, op.Corrupt, m); ok {
@@ -848,6 +851,7 @@ func (x *c08) renewOn(op C08Op, m *mcontract) error {
 	before := x.snapshot()
 	logFrom := x.H.Log.Len()
 	prices := x.Prices
+	forbidden := x.forbiddenBySettings(m, args, prices)
 	r := x.R.Renew(m.view(), prices, args, rhpx.Script{}, tamper)
 	if r.Infra != nil {
 		x.cs.Inconclusive("watchdog")
@@ -855,6 +859,19 @@ func (x *c08) renewOn(op C08Op, m *mcontract) error {
 	}
 	x.cs.Class("rpc:" + op.Op)
 	calls := x.H.Log.Since(logFrom)
+	if forbidden != nil && !corrupted && !x.nonRevisable(m) {
+		// the settings the operator has in force right now (or core's own
+		// request validation under them) forbid this request
+		x.cs.Class("forbidden-by-settings-in-force:" + op.Op)
+		if r.Done {
+			return fmt.Errorf("%s: accepted although the host settings in force when it arrived forbid it: %v", what, forbidden)
+		}
+		if err := quietLog(calls); err != nil {
+			return fmt.Errorf("%s (forbidden: %v; %v): %w", what, forbidden, r.Result, err)
+		}
+		x.rejected++
+		return x.after(what+" -> refused ("+forbidden.Error()+")", &before, nil)
+	}
 	if x.nonRevisable(m) {
 		why := "past-proof-height"
 		if m.Renewed {
@@ -905,6 +922,85 @@ func (x *c08) renewOn(op C08Op, m *mcontract) error {
 		return err
 	}
 	return x.staleBattery(m)
+}
+
+// forbiddenBySettings judges a renew / refresh request against the host
+// settings in force when it arrives (the harness sets them itself through the
+// settings reporter, as an operator would) with core's own request validation:
+// not accepting contracts, collateral above MaxCollateral, duration above
+// MaxContractDuration, and core's parameter rules. nil = not forbidden.
+func (x *c08) forbiddenBySettings(m *mcontract, args rhpx.RenewArgs, prices proto4.HostPrices) error {
+	st := x.H.Settings.RHP4Settings()
+	if !st.AcceptingContracts {
+		return fmt.Errorf("the host is not accepting contracts")
+	}
+	hostKey := x.H.HostKey.PublicKey()
+	tip := x.H.CM.Tip()
+	dummyBasis := types.ChainIndex{Height: 1, ID: types.BlockID{1}}
+	fee := types.NewCurrency64(1)
+	if args.Kind == "renew" {
+		req := proto4.RPCRenewContractRequest{Prices: prices, MinerFee: fee, Basis: dummyBasis,
+			Renewal: proto4.RPCRenewContractParams{ContractID: m.ID, Allowance: args.Allowance, Collateral: args.Collateral, ProofHeight: args.ProofHeight}}
+		return req.Validate(hostKey, tip, m.Rev, st.MaxCollateral, st.MaxContractDuration)
+	}
+	req := proto4.RPCRefreshContractRequest{Prices: prices, MinerFee: fee, Basis: dummyBasis,
+		Refresh: proto4.RPCRefreshContractParams{ContractID: m.ID, Allowance: args.Allowance, Collateral: args.Collateral}}
+	return req.Validate(hostKey, tip, m.Rev, st.MaxCollateral, args.Kind == "refresh-partial")
+}
+
+// changeSettings is the operator changing the host's settings at runtime.
+func (x *c08) changeSettings(op C08Op) error {
+	st := x.H.Settings.RHP4Settings()
+	switch op.What {
+	case "maxcol":
+		st.MaxCollateral = []types.Currency{types.Siacoins(1), types.Siacoins(3), types.Siacoins(100), types.Siacoins(250), types.Siacoins(10000)}[mod(op.Len, 5)]
+	case "maxdur":
+		st.MaxContractDuration = []uint64{50, 150, 210, 1000}[mod(op.Len, 4)]
+	case "accept":
+		st.AcceptingContracts = op.Len%2 == 1
+	case "prices":
+		f := uint64(1 + mod(op.Len, 3))
+		p := rhpx.DefaultPrices()
+		st.Prices.StoragePrice, st.Prices.EgressPrice, st.Prices.IngressPrice = p.StoragePrice.Mul64(f), p.EgressPrice.Mul64(f), p.IngressPrice.Mul64(f)
+		st.Prices.ContractPrice, st.Prices.FreeSectorPrice, st.Prices.Collateral = p.ContractPrice.Mul64(f), p.FreeSectorPrice.Mul64(f), p.Collateral.Mul64(f)
+	default:
+		return nil
+	}
+	x.H.Settings.Update(st)
+	x.cs.Class("settings-changed:" + op.What)
+	if op.What == "prices" && op.Off%2 == 0 {
+		// the renter may keep using its still valid table or fetch the new one
+		p, err := x.H.FetchPrices()
+		if err != nil {
+			return fmt.Errorf("%w: %v", errInfra, err)
+		}
+		x.Prices = p
+	}
+	// the advertised settings are the new ones at once
+	adv, err := rhp4.RPCSettings(context.Background(), x.H.Client)
+	if stop, e := infra(x.cs, x.idle(err)); stop {
+		return e
+	}
+	if err != nil || adv.AcceptingContracts != st.AcceptingContracts || !adv.MaxCollateral.Equals(st.MaxCollateral) || adv.MaxContractDuration != st.MaxContractDuration {
+		return fmt.Errorf("RPCSettings does not advertise the settings in force (err %v)", err)
+	}
+	if err := x.after("operator changed "+op.What, nil, nil); err != nil {
+		return err
+	}
+	// every renewal kind right away, judged against the new settings
+	m := x.live(op.C)
+	if x.nonRevisable(m) {
+		return nil
+	}
+	for _, kind := range []string{"refresh-full", "renew", "refresh-partial"} {
+		if m.Renewed {
+			break
+		}
+		if err := x.renewOn(C08Op{Op: kind, Alw: op.Alw, Col: op.Col}, m); err != nil {
+			return err
+		}
+	}
+	return nil
 }
 
 // staleBattery issues every revising RPC kind, honestly built on the last
@@ -1289,6 +1385,8 @@ func (x *c08) step(op C08Op) error {
 			return err
 		}
 		return x.staleBattery(m)
+	case "settings":
+		return x.changeSettings(op)
 	case "confirm":
 		// broadcast and mine one of the doubly-signed revisions the host has
 		// committed so far - usually an OLDER one while newer ones exist. The
@@ -1384,7 +1482,7 @@ func runC08(c C08Case, cs *kit.CaseStats) error {
 
 func genC08Op(t *rapid.T, nc int, allowRace bool) C08Op {
 	op := C08Op{C: rapid.IntRange(0, nc-1).Draw(t, "c")}
-	k := rapid.IntRange(0, 37).Draw(t, "op")
+	k := rapid.IntRange(0, 39).Draw(t, "op")
 	switch {
 	case k < 6:
 		op.Op = "fund"
@@ -1434,6 +1532,13 @@ func genC08Op(t *rapid.T, nc int, allowRace bool) C08Op {
 			op.Op = "minepast"
 			op.Len = rapid.SampledFrom([]int{0, 0, 0, 1}).Draw(t, "expire")
 		}
+	case k >= 38:
+		op.Op = "settings"
+		op.What = rapid.SampledFrom([]string{"maxcol", "maxcol", "maxdur", "accept", "prices"}).Draw(t, "what")
+		op.Len = rapid.IntRange(0, 5).Draw(t, "level")
+		op.Off = rapid.IntRange(0, 1).Draw(t, "refetch")
+		op.Alw, op.Col = rapid.IntRange(0, len(amountTable)-1).Draw(t, "salw"), rapid.IntRange(0, len(amountTable)-1).Draw(t, "scol")
+		return op
 	case k >= 35:
 		op.Op = "confirm"
 		op.Len = rapid.IntRange(0, 7).Draw(t, "which")
@@ -1483,7 +1588,7 @@ func genC08Op(t *rapid.T, nc int, allowRace bool) C08Op {
 		var chain *C08Op
 		for i := 0; i < n; i++ {
 			p := genC08Op(t, nc, false)
-			for p.Op == "latest" || p.Op == "mine" || p.Op == "minepast" || p.Op == "confirm" || p.Op == "renew" || p.Op == "refresh-full" || p.Op == "refresh-partial" {
+			for p.Op == "latest" || p.Op == "mine" || p.Op == "minepast" || p.Op == "confirm" || p.Op == "settings" || p.Op == "renew" || p.Op == "refresh-full" || p.Op == "refresh-partial" {
 				p = C08Op{Op: "fund", Dep: []int{rapid.IntRange(0, 2).Draw(t, "racct"), rapid.IntRange(0, 3).Draw(t, "ramt")}}
 			}
 			p.Corrupt, p.Race = "", chain
@@ -1531,7 +1636,7 @@ func genC08(t *rapid.T) C08Case {
 
 var c08Prop = kit.Prop[C08Case]{
 	ID:   "C08",
-	Rule: "sequences (2..20, thorough 2..40) of fund, replenish accounts/pools, append, free, sector-roots, latest-revision, renew, refresh (full/partial), mine, broadcasting and mining an older doubly-signed revision while newer ones exist, 2-3-way races of honest RPCs and forced interleavings (a second RPC on the same contract issued exactly while the host waits for the second renter message of a renew, refresh, append, free or replenish) on 1-2 contracts against the real rhp4.Server, every revising RPC kind re-issued against a contract after it was renewed / refreshed or after the chain was mined past its proof height (must be refused, nothing signed or persisted), each RPC honest or with exactly one corruption (challenge: garbage / zero / other key / number -1 / +1 / replayed; renter signature: garbage / zero / other key / over another amount, root or number / replayed; replayed request; price table signed by another key / expired / altered; request for another contract; out-of-range indices, offsets, lengths; zero, missing or overflowing deposits and targets; honest-looking deposit lists and replenish targets at the edges of the 128-bit range (2^64-1, 2^64, 2^127, 2^128-1-k; sums that overflow early, late, or wrap to something affordable - the renter then signs the wrapped total); renewal parameters out of bounds; renewal funded with inputs whose signatures are invalid or that are double-spent through the pool), the rest of the exchange carried on honestly. Oracle over the recorded Contractor calls: every committed revision equals core's ReviseFor*/Renew*/Refresh* applied by the harness to the previous revision and the arguments it sent, is doubly signed, monotone and value conserving; corrupted or underivable requests change nothing and trigger no mutating call; the latest revision validates under core as a revision of the on-chain element. Non-trivial = >= 2 committed revisions and >= 1 rejected corrupted/replayed request in one sequence; distinct by hash of the case.",
+	Rule: "sequences (2..20, thorough 2..40) of operator settings changes at runtime (MaxCollateral, MaxContractDuration, AcceptingContracts, prices; every later renew / refresh judged by core's request validation against the settings in force when it arrives, price tables staying valid until they expire), fund, replenish accounts/pools, append, free, sector-roots, latest-revision, renew, refresh (full/partial), mine, broadcasting and mining an older doubly-signed revision while newer ones exist, 2-3-way races of honest RPCs and forced interleavings (a second RPC on the same contract issued exactly while the host waits for the second renter message of a renew, refresh, append, free or replenish) on 1-2 contracts against the real rhp4.Server, every revising RPC kind re-issued against a contract after it was renewed / refreshed or after the chain was mined past its proof height (must be refused, nothing signed or persisted), each RPC honest or with exactly one corruption (challenge: garbage / zero / other key / number -1 / +1 / replayed; renter signature: garbage / zero / other key / over another amount, root or number / replayed; replayed request; price table signed by another key / expired / altered; request for another contract; out-of-range indices, offsets, lengths; zero, missing or overflowing deposits and targets; honest-looking deposit lists and replenish targets at the edges of the 128-bit range (2^64-1, 2^64, 2^127, 2^128-1-k; sums that overflow early, late, or wrap to something affordable - the renter then signs the wrapped total); renewal parameters out of bounds; renewal funded with inputs whose signatures are invalid or that are double-spent through the pool), the rest of the exchange carried on honestly. Oracle over the recorded Contractor calls: every committed revision equals core's ReviseFor*/Renew*/Refresh* applied by the harness to the previous revision and the arguments it sent, is doubly signed, monotone and value conserving; corrupted or underivable requests change nothing and trigger no mutating call; the latest revision validates under core as a revision of the on-chain element. Non-trivial = >= 2 committed revisions and >= 1 rejected corrupted/replayed request in one sequence; distinct by hash of the case.",
 	Assumptions: []string{
 		"host = rhp4.Server over the repository's reference EphemeralContractor (which itself re-checks signatures and revision numbers) on the all-v2 test network, in-memory transport",
 		"expired price tables are produced by signing a table with a past ValidUntil with the host key (the harness holds it); no sleeping",
